@@ -2,9 +2,9 @@
    (harness/cmd/race/accesses.go) extracts from /repo's source on every run, and the
    happens-before vocabulary for the two theorems that lift the discipline to executions.
    No proofs here. *)
-From Coq Require Import String List Bool Arith.
+From Coq Require Import String List Bool Arith NArith.
 Import ListNotations.
-Open Scope string_scope.
+Local Open Scope string_scope.
 
 Record acc := Acc {
   a_func : string;      (* enclosing function, Recv.Name *)
@@ -13,7 +13,8 @@ Record acc := Acc {
   a_write : bool;
   a_locked : bool;      (* syntactically inside s.mu.Lock() .. s.mu.Unlock() *)
   a_atomic : bool;      (* argument of a sync/atomic call *)
-  a_sync : bool         (* operation of a self-synchronising object: WaitGroup/Cond method, channel op *)
+  a_sync : bool;        (* operation of a self-synchronising object: WaitGroup/Cond method, channel op *)
+  a_region : N          (* number of the critical section of s.mu inside a_func the access lies in; 0 = unlocked *)
 }.
 
 Definition inb (s : string) (l : list string) : bool := existsb (String.eqb s) l.
@@ -62,6 +63,33 @@ Definition acc_eqb (a b : acc) : bool :=
   String.eqb (a_func a) (a_func b) && String.eqb (a_struct a) (a_struct b) && String.eqb (a_field a) (a_field b) &&
   Bool.eqb (a_write a) (a_write b) && Bool.eqb (a_locked a) (a_locked b) && Bool.eqb (a_atomic a) (a_atomic b) &&
   Bool.eqb (a_sync a) (a_sync b).
+
+(* ---- lock granularity: the atomic steps of the scheduler LTS (Sched/Model.v) are single critical sections
+   in the code.  LSect (worker): the test "is there another callback in the work item" and the removal of the
+   group's rwork entry happen under ONE hold of s.mu; LEnq (runWith): the nil-queue test, the rwork lookup and
+   the append / registration happen under ONE hold of s.mu.  Checked on the extracted table: in the named
+   function, every critical section that contains one of the [trigger] accesses also contains all [needed] ones. *)
+Definition is_acc (st fld : string) (w : bool) (a : acc) : bool :=
+  String.eqb (a_struct a) st && String.eqb (a_field a) fld && Bool.eqb (a_write a) w.
+Definition in_region (f : string) (r : N) (a : acc) : bool :=
+  String.eqb (a_func a) f && N.eqb (a_region a) r && a_locked a.
+Definition region_has (t : list acc) (f : string) (r : N) (p : acc -> bool) : bool :=
+  existsb (fun a => in_region f r a && p a) t.
+Definition atomic_req (t : list acc) (f : string) (trigger : acc -> bool) (needed : list (acc -> bool)) : bool :=
+  forallb (fun a => if String.eqb (a_func a) f && trigger a
+                    then a_locked a && forallb (region_has t f (a_region a)) needed
+                    else true) t.
+Definition granularity_ok (t : list acc) : bool :=
+  (* worker: deleting the rwork entry is in the same critical section as the emptiness test of the queue *)
+  atomic_req t "work.processQueue" (is_acc "Service" "rwork" true) [is_acc "work" "queue" false] &&
+  existsb (fun a => String.eqb (a_func a) "work.processQueue" && is_acc "Service" "rwork" true a) t &&
+  (* runWith: appending to a work item / registering a new one is in the same critical section as the
+     nil-queue test and the rwork lookup *)
+  atomic_req t "Service.runWith" (fun a => is_acc "work" "queue" true a || is_acc "Service" "rwork" true a || is_acc "Service" "workqueue" true a)
+             [is_acc "Service" "workqueue" false; is_acc "Service" "rwork" false] &&
+  existsb (fun a => String.eqb (a_func a) "Service.runWith" && is_acc "work" "queue" true a) t &&
+  (* the worker loop takes work from the queue under the lock it tested the queue with *)
+  atomic_req t "Service.startWorker" (is_acc "Service" "workqueue" true) [is_acc "Service" "workqueue" false].
 
 (* ---- executions with one mutex: lock-protected accesses are ordered by happens-before ---- *)
 Inductive ev :=
